@@ -372,6 +372,8 @@ func init() {
 	intrinsics["internal/race.ReadRange"] = nop
 	intrinsics["internal/race.WriteRange"] = nop
 
+	intrinsics["internal/reflectlite.TypeOf"] = func(in *Interp, c *callCtx) Value { return Iface{t: opaqueT} }
+	intrinsics["reflect.TypeOf"] = func(in *Interp, c *callCtx) Value { return Iface{t: opaqueT} }
 	// ---- errors.Is / errors.As use reflectlite
 	intrinsics["errors.Is"] = func(in *Interp, c *callCtx) Value { return in.errorsIs(c.g, c.args[0].(Iface), c.args[1].(Iface)) }
 }
